@@ -684,11 +684,13 @@ func replayBin(def *CheckDef) string {
 // produces a violation of the same oracle and class (or kills the process for
 // process-death cases).
 func replayFails(def *CheckDef, path string, v Violation) bool {
-	cmd := exec.Command(replayBin(def), "replay", def.ID, path)
+	ctx, cancel := context.WithTimeout(context.Background(), 180*time.Second)
+	defer cancel()
+	cmd := exec.CommandContext(ctx, replayBin(def), "replay", def.ID, path)
 	cmd.Env = append(os.Environ(), "GOMAXPROCS=2", "GOTRACEBACK=single", "GOGC=400")
 	out, err := cmd.Output()
 	if err != nil {
-		return v.Class == "process-death"
+		return v.Class == "process-death" || v.Class == "hang"
 	}
 	var r struct {
 		Violations []Violation `json:"violations"`
